@@ -11,7 +11,10 @@ use std::collections::{BTreeMap, BTreeSet};
 use std::panic::{catch_unwind, AssertUnwindSafe};
 
 const MAX_SAMPLES: usize = 6;
-const MAX_VIOLATIONS_KEPT: usize = 40;
+/// violation records kept per shard: a few per signature (a signature that fires thousands of
+/// times, e.g. a known finding, must not crowd out the record of another one) and a global cap
+const MAX_VIOLATIONS_KEPT: usize = 600;
+const MAX_VIOLATIONS_KEPT_PER_SIG: u64 = 3;
 const MAX_CELL_NAMES: usize = 60;
 
 #[derive(Debug)]
@@ -115,8 +118,9 @@ impl Report {
     /// signature (what kind of thing failed, no line numbers / addresses);
     /// `detail` carries the concrete witness.
     pub fn violation(&mut self, sig: &str, msg: &str, detail: Value) {
-        *self.violation_sigs.entry(sig.to_string()).or_insert(0) += 1;
-        if self.violations.len() < MAX_VIOLATIONS_KEPT {
+        let n = self.violation_sigs.entry(sig.to_string()).or_insert(0);
+        *n += 1;
+        if *n <= MAX_VIOLATIONS_KEPT_PER_SIG && self.violations.len() < MAX_VIOLATIONS_KEPT {
             self.violations.push(json!({
                 "sig": sig,
                 "msg": msg,
